@@ -817,7 +817,8 @@ class Translator:
         return "((int64_t)(((uint64_t)(%s) ^ UINT64_C(%d)) - UINT64_C(%d)))" % (e, 1 << (w - 1), 1 << (w - 1))
 
     def gep_offset(self, sty, idx):
-        """byte offset expression string for GEP over source element type sty"""
+        """byte offset expression string for GEP over source element type sty.  The arithmetic is
+        done in uint64_t (wrapping, like the IR) and converted to a signed offset at the end."""
         const = 0
         terms = []
         cur = sty
@@ -829,7 +830,7 @@ class Translator:
                 if iv[0] == 'c':
                     const += iv[1] * stride
                 else:
-                    terms.append("%s * (int64_t)%d" % (iv[1], stride))
+                    terms.append("(uint64_t)%s * UINT64_C(%d)" % (iv[1], stride))
                 continue
             ct = self.resolve(cur)
             if ct[0] == 'struct':
@@ -843,15 +844,15 @@ class Translator:
                 if iv[0] == 'c':
                     const += iv[1] * stride
                 else:
-                    terms.append("%s * (int64_t)%d" % (iv[1], stride))
+                    terms.append("(uint64_t)%s * UINT64_C(%d)" % (iv[1], stride))
                 cur = ct[2]
             else:
                 raise Unsupported("GEP into %r" % (ct[0],))
-        if const or not terms:
-            terms.append("(int64_t)%d" % const if const < 0 else "%d" % const)
-        if len(terms) == 1:
-            return terms[0]
-        return "(" + " + ".join(terms) + ")"
+        if not terms:
+            return "(int64_t)%d" % const if const < 0 else "%d" % const
+        if const:
+            terms.append("UINT64_C(%d)" % (const & ((1 << 64) - 1)))
+        return "(int64_t)(" + " + ".join(terms) + ")"
 
     def cast_expr(self, op, fty, v, tty):
         f = self.resolve(fty)
@@ -1098,6 +1099,21 @@ class Translator:
                 pl.append((dest, toks, text))
             parsed.append((lab, pl))
         labels = {lab: "L_%s" % cname(lab) for (lab, _) in parsed}
+        border = {lab: i for i, (lab, _) in enumerate(parsed)}
+        # loop heads = targets of a branch from the same or a later block (in layout order).  CBMC resets
+        # the unwinding counter of a loop only when its head is entered by fall-through, so every
+        # loop head H gets a pre-header 'LP_H: ir_pre_ = 0;' placed directly before it, and forward
+        # branches to H go to LP_H.
+        loop_heads = set()
+        for (lab, pl) in parsed:
+            if not pl:
+                continue
+            toks = pl[-1][1]
+            for j in range(len(toks) - 1):
+                if toks[j] == ('word', 'label') and toks[j + 1][0] == 'local':
+                    tgt = toks[j + 1][1][1:].strip('"')
+                    if tgt in border and border[tgt] <= border[lab]:
+                        loop_heads.add(tgt)
 
         # first pass: result types of all instructions
         def ts_of(toks, text):
@@ -1218,12 +1234,17 @@ class Translator:
                 for i, (dest, ty, inc) in enumerate(lst):
                     tmp.append("%s = ir_t%d;" % (vn(dest), i))
                 o.append(indent + "{ " + " ".join(tmp) + " }")
-            o.append(indent + "goto %s;" % labels[succ])
+            if succ in loop_heads and border[pred] < border[succ]:
+                o.append(indent + "goto LP_%s;" % labels[succ][2:])
+            else:
+                o.append(indent + "goto %s;" % labels[succ])
             return o
 
         calls = set()
         allocas = []
         for (lab, pl) in parsed:
+            if lab in loop_heads:
+                out.append("LP_%s: ir_pre_ = 0;" % labels[lab][2:])
             out.append("%s: ;" % labels[lab])
             for (dest, toks, text) in pl:
                 self.ninstr += 1
@@ -1463,6 +1484,8 @@ class Translator:
                     decls.append("  %s;" % self.decl_local(vtypes[dest], vn(dest)))
         ret = 'void' if f.ret == VOID else self.val_ctype(f.ret)
         head = "%s %s(%s)" % (ret, self.fname(fn), ", ".join(cparams) if cparams else "void")
+        if loop_heads:
+            decls.append("  int ir_pre_;")
         body = "\n".join(allocas) + ("\n" if allocas else "") + head + "\n{\n" + "\n".join(decls) + "\n" + "\n".join(out) + "\n}\n"
         return head, body, calls
 
